@@ -670,13 +670,13 @@ static Value runRequest(const Value& rq, uint64_t seed, const std::string& scrat
         int kr = 0;
         VectorDouble sill(nvar * nvar, 0.);
         for (int i = 0; i < nvar; i++) sill[i * nvar + i] = 1.;
-        model->setField(hmax);     // as the automatic fit does (a LINEAR structure is evaluated relative to the field)
         for (auto& ty : types)
         {
           double range = 0.;
           if (ty != ECov::NUGGET) { kr++; range = hmax * kr / (nr + 1.); }
           model->addCovFromParam(ty, range, 0., 1., VectorDouble(), sill);
         }
+        model->setField(hmax);     // as the automatic fit does (a model without field is not kept by save + reload: C08's business)
         if (entry == "sills")
         {
           ModelOptimSillsVario mo(model, &cons, mauto, optvar);
